@@ -64,7 +64,7 @@ PROPS["C03"] = dict(
     rule=PAIR_RULE + "; implementation answers A.Contains(B), B.Contains(A) compared with the Coq model and with the arrangement oracle covers_x",
     trusted_base=COMMON_TB + ["the executable arrangement oracle coq/PairSpec.v (covers_x) as ground truth: its completeness is not proved (DESIGN §9)"],
     assumptions=["float64 exact on D"],
-    partial=["strict containment of a segment by a non-convex ring is proved exact as a point-set statement (JordanQ.v); containment with boundary contact for concave rings / holes is explored against the oracle, not proved; the pinned tree violates it in contact configurations (KNOWN_FINDINGS.txt)"],
+    partial=["strict containment of a segment is proved exact as a point-set statement for rings not flagged convex (JordanQ.v) and for convex rings (Convex.v: every vertex weakly on the inner side of every edge line), and containment with contact allowed in general position (JordanGP.v); containment with boundary contact for concave rings / holes is explored against the oracle, not proved; the pinned tree violates it in contact configurations (KNOWN_FINDINGS.txt)"],
 )
 PROPS["C12"] = dict(
     translated_functions=['Segment.Rect', 'Segment.CollinearPoint', 'Segment.ContainsPoint', 'Segment.ContainsSegment', 'Segment.IntersectsSegment', 'Rect.ContainsPoint', 'Rect.IntersectsPoint', 'Rect.ContainsRect', 'Rect.IntersectsRect', 'Rect.Area', 'Point.ContainsPoint', 'Point.IntersectsPoint', 'Point.IntersectsRect', 'Point.ContainsRect', 'Rect.IntersectsLine', 'Rect.IntersectsPoly', 'Point.IntersectsLine', 'Point.IntersectsPoly', 'Line.IntersectsPoint', 'Line.IntersectsRect', 'Line.IntersectsPoly', 'Poly.IntersectsPoint', 'Poly.IntersectsRect', 'Rect.ContainsLine', 'Rect.ContainsPoly', 'Point.ContainsLine', 'Point.ContainsPoly', 'Poly.ContainsRect'],
